@@ -494,6 +494,12 @@ func (c *tunnelChannel) recvLoop() {
 				supported = true
 			}
 		}
+		if len(settings.Settings.SupportedProtocolRevisions) == 0 {
+			// Per the protocol, an empty list should never be sent, but if it
+			// is observed the client must assume that the server only
+			// supports revision zero (which every client supports).
+			supported = true
+		}
 		if !supported {
 			c.close(fmt.Errorf("protocol error: server support revisions %v, but client supports revisions %v",
 				settings.Settings.SupportedProtocolRevisions, supportedRevisions))
